@@ -120,9 +120,18 @@ func (c rapidChooser) Int(n int, label string) int {
 	return rapid.IntRange(0, n-1).Draw(c.t, label)
 }
 
-type zeroChooser struct{}
+// fixedChooser always takes the k-th alternative (modulo the number of alternatives), except
+// that it never omits an optional argument and never picks a null literal.
+type fixedChooser struct{ k int }
 
-func (zeroChooser) Int(int, string) int { return 0 }
+func (c fixedChooser) Int(n int, label string) int {
+	if label == "optarg" || label == "optfield" || label == "null" || n <= 1 {
+		return 0
+	}
+	return c.k % n
+}
+
+type zeroChooser = fixedChooser
 
 var (
 	poolString = []string{"test", "ap", "unavailable", "error_action", "Tech", "a b", "alpha", ""}
@@ -258,6 +267,9 @@ func (g *opGen) steerAway(def *ast.Definition, f *ast.FieldDefinition, anc ances
 	case u.Kind == unitResolver && anc.abstract && steering(findResolverInUnion):
 		g.excluded[findResolverInUnion] = true
 		return true
+	case u.Kind == unitResolver && anc.sinceResolver >= 1 && steering(findResolverInResolverResult):
+		g.excluded[findResolverInResolverResult] = true
+		return true
 	}
 	if ok, finding := g.usable(u.Key); !ok {
 		if finding != "" {
@@ -354,11 +366,7 @@ func (g *opGen) field(def *ast.Definition, f *ast.FieldDefinition, depth int, u 
 	if !isLeafType(g.w, f.Type) {
 		rt := g.w.schema.Types[f.Type.Name()]
 		k.scope = rt.Name
-		k.Kids = g.selSet(rt, depth+1, used{}, ancestry{
-			nullable:   anc.nullable || !f.Type.NonNull || (f.Type.Elem != nil && !f.Type.Elem.NonNull),
-			nestedList: anc.nestedList || listDepth(f.Type) > 1,
-			abstract:   anc.abstract || rt.Kind != ast.Object,
-		})
+		k.Kids = g.selSet(rt, depth+1, used{}, anc.below(g.w, def, f))
 	}
 	return k
 }
@@ -371,7 +379,7 @@ func genBase(t *rapid.T, w *world, usable func(string) (bool, string), maxDepth 
 		rootDef, o.Mutation = w.schema.Mutation, true
 	}
 	o.rootType = rootDef.Name
-	o.Roots = g.selSet(rootDef, 0, used{}, ancestry{})
+	o.Roots = g.selSet(rootDef, 0, used{}, noAncestry())
 	return o
 }
 
